@@ -120,6 +120,7 @@ func runC12(c *Ctx) {
 				own := strings.Split(facts, ":")[1]
 				names := []string{own, strings.ToLower(own[:1]) + own[1:]}
 				names = append(names, bases...)
+				names = append(names, "code", "string", "integer", "uri", "Quantity") // targets of the specialisation rules
 				for i := 0; i < 8; i++ {
 					names = append(names, Pick(c.rng, fhirNames))
 				}
